@@ -269,9 +269,18 @@ type caller struct {
 	done   chan struct{}
 }
 
-func (g *rig) startCaller(name, id string) *caller {
+func newCaller(name, id string) *caller {
 	c := &caller{name: name, id: id, done: make(chan struct{})}
 	c.ctx, c.cancel = context.WithCancel(context.Background())
+	return c
+}
+
+func (g *rig) startCaller(name, id string) *caller {
+	return g.start(newCaller(name, id))
+}
+
+func (g *rig) start(c *caller) *caller {
+	name, id := c.name, c.id
 	req := &lime.RequestCommand{}
 	req.ID = id
 	req.Method = lime.CommandMethodGet
@@ -356,6 +365,15 @@ func Replay(c Case) Result {
 		ch <- struct{}{}
 	}
 	fail := func(i int, s Step, why string) Result {
+		// the real goroutines do not follow the schedule any further (a goroutine blocked where the
+		// model lets it run, for instance): let everything run, look at what is left, and leave the
+		// verdict to the monitor
+		atomic.StoreInt32(&r.free, 1)
+		for proc := range r.parked {
+			release(proc)
+		}
+		time.Sleep(30 * time.Millisecond)
+		r.log(Event{K: "end", N: lime.VerifPendingCommands(g.cc)})
 		res.Actual = r.snapshot()
 		res.Note = fmt.Sprintf("sched: step %d %s.%s: %s (parked=%v)", i, s.P, s.A, why, r.parked)
 		return res
@@ -366,8 +384,12 @@ func Replay(c Case) Result {
 			r.mu.Lock()
 			r.release[s.P] = make(chan struct{})
 			r.mu.Unlock()
-			cl := g.startCaller(s.P, idOfCaller(s.P))
-			callers[s.P] = cl
+			cl := callers[s.P]
+			if cl == nil {
+				cl = newCaller(s.P, idOfCaller(s.P))
+				callers[s.P] = cl
+			}
+			g.start(cl)
 			if !advance(s.P, nil) || r.parked[s.P] != "pc.enter" {
 				return fail(i, s, "caller did not reach pc.enter")
 			}
@@ -377,12 +399,15 @@ func Replay(c Case) Result {
 			if !ok {
 				return fail(i, s, "caller neither parked nor returned")
 			}
-			if r.parked[name] == "pc.wait" {
+			if r.parked[name] == "pc.wait" && cl.ctx.Err() == nil {
 				if !r.waitEvent(func(evs []Event) bool { return hasEv(evs, "reqseen", name, 0) }, 2*time.Second) {
 					return fail(i, s, "request never reached the peer")
 				}
 			}
 		case "CtxEnd":
+			if callers[s.P] == nil { // a context that has ended before the call is made
+				callers[s.P] = newCaller(s.P, idOfCaller(s.P))
+			}
 			callers[s.P].cancel()
 			r.log(Event{K: "ctxend", C: s.P})
 		case "Wait":
